@@ -6,7 +6,9 @@ import (
 	"math/big"
 	"time"
 
+	admintypes "github.com/Sifchain/sifnode/x/admin/types"
 	clptypes "github.com/Sifchain/sifnode/x/clp/types"
+	govtypes "github.com/cosmos/cosmos-sdk/x/gov/types"
 
 	ethbridgetypes "github.com/Sifchain/sifnode/x/ethbridge/types"
 	sdk "github.com/cosmos/cosmos-sdk/types"
@@ -88,6 +90,43 @@ func scriptRewardsDustPools(rng *chain.Rng) *env.Env {
 	return e
 }
 
+// scriptAdminParams: corpus history — governance proposals whose transaction fee lies between the default submit-proposal
+// fee (5000 rowan, used while no admin parameters are stored) and a fee the administrator stores later. A fresh
+// application instance that replays these blocks must take the same decisions as the first one, whatever other chains the
+// process has executed before (nothing read from one chain's store may survive in package-level state).
+func scriptAdminParams(k int) *env.Env {
+	e := env.New(env.Opts{NUsers: 3, Tokens: []string{"ceth"}})
+	e.BeginBlock()
+	fee := func(rowan int64) sdk.Coins {
+		return sdk.NewCoins(sdk.NewCoin("rowan", sdk.NewIntFromBigInt(new(big.Int).Mul(big.NewInt(rowan), chain.E(18)))))
+	}
+	propose := func(u chain.Account, rowan int64) {
+		m, err := govtypes.NewMsgSubmitProposal(govtypes.NewTextProposal("t", "d"), sdk.NewCoins(sdk.NewCoin("rowan", sdk.NewInt(1))), u.Addr)
+		if err != nil {
+			panic(err)
+		}
+		e.Deliver(fee(rowan), 5_000_000, []chain.Account{u}, m)
+	}
+	setFee := func(rowan int64) {
+		m := &admintypes.MsgSetParams{Signer: e.Admin.Addr.String(), Params: &admintypes.Params{SubmitProposalFee: sdk.NewUintFromBigInt(new(big.Int).Mul(big.NewInt(rowan), chain.E(18)))}}
+		mustOK(e.Tx(e.Admin, m), "admin params")
+	}
+	fees := [][3]int64{{10, 1, 10}, {6000, 20000, 6000}, {3, 7, 5}}[k%3]
+	propose(e.Users[0], fees[0]) // against the default
+	propose(e.Users[1], 4999)
+	propose(e.Users[1], 5000)
+	e.NextBlock()
+	setFee(fees[1])
+	e.NextBlock()
+	propose(e.Users[0], fees[2]) // against the stored fee
+	propose(e.Users[2], fees[1])
+	e.NextBlock()
+	setFee(2*fees[1] + 1) // the last stored fee differs from the default and from the earlier one
+	propose(e.Users[2], 4999)
+	e.NextBlock()
+	return e
+}
+
 // C09 — state-machine determinism: same blocks, same state and results.
 func C09(c Ctx) *report.Report {
 	rep := report.New("C09", c.Seed, c.Tier)
@@ -95,6 +134,23 @@ func C09(c Ctx) *report.Report {
 	next := 0
 	runs := c.N(4, 16)
 	calls, hists := 0, 0
+	// corpus first: administrator-set parameters and the ante decisions that read them (the first recorded run of each
+	// comes after the previous script's re-executions in this same process)
+	for k := 0; k < 3; k++ {
+		e := scriptAdminParams(k)
+		calls += reexec(rep, e.Chain, runs, "admin-params", map[string]interface{}{"corpus": "governance proposals with fees around the default submit-proposal fee and around the fee the administrator stores in between", "variant": k})
+		hists++
+		rep.Count("reexecuted.admin-params")
+	}
+	// margin: opens, closes, liquidations and interest in the begin blocker
+	{
+		mnext := 0
+		for _, h := range RunMarginHistories(c, rep, rng, c.N(6, 120), 30, &mnext) {
+			calls += reexec(rep, h.Env.Chain, runs, "margin", h.replay(len(h.Steps)))
+			hists++
+			rep.Count("reexecuted.margin")
+		}
+	}
 	// AMM: several providers per pool and providers in several pools, LPPD and depth-reward payouts, epoch payouts
 	o := clpOpts(c, 0, 0)
 	o.Histories = c.N(16, 300)
